@@ -111,10 +111,10 @@ def phase_C13(tier, seed, st, stats):
     n386, mism386, _ = vlib.compare_with_model(outdir386)
     for fnd in (s386.get("findings") or []):
         if fnd["kind"] == "kernel":
-            viol.append({"kind": "kernel", "fn": fnd.get("fn"), "case": fnd.get("case"),
+            viol.append({"kind": "kernel", "fn": fnd.get("fn"), "case": fnd.get("case"), "goarch": "386",
                          "detail": "portable Go body (GOARCH=386): %s" % fnd.get("detail")})
     for mm in mism386[:5]:
-        viol.append(dict(mm, kind="implementation != Spec (extracted Coq model) — portable Go bodies, GOARCH=386"))
+        viol.append(dict(mm, goarch="386", kind="implementation != Spec (extracted Coq model) — portable Go bodies, GOARCH=386"))
     portable = {"cases_against_the_scalar_definitions": n386, "mismatches": len(mism386),
                 "sweep_evaluations": s386.get("evaluations"), "sweep_findings": len(s386.get("findings") or [])}
     cov = {"portable_go_bodies_goarch386": portable,
